@@ -51,6 +51,7 @@ Lemma gen_point_gate_eq : same g_point (gate_re TPoint) = true /\ g_point_ic = t
 Lemma gen_polygon_gate_eq : same g_polygon (gate_re TPoly) = true /\ g_polygon_ic = true. Proof. vm_compute. split; reflexivity. Qed.
 Lemma gen_linestring_gate_eq : same g_linestring (gate_re TLine) = true /\ g_linestring_ic = true. Proof. vm_compute. split; reflexivity. Qed.
 Lemma gen_multipoint_gate_eq : same g_multipoint (gate_re TMPoint) = true /\ g_multipoint_ic = true. Proof. vm_compute. split; reflexivity. Qed.
+Lemma gen_multipoint_nested_gate_eq : same g_multipoint_nested re_mpoint_nested = true /\ g_multipoint_nested_ic = true. Proof. vm_compute. split; reflexivity. Qed.
 Lemma gen_multipolygon_gate_eq : same g_multipolygon (gate_re TMPoly) = true /\ g_multipolygon_ic = true. Proof. vm_compute. split; reflexivity. Qed.
 Lemma gen_multilinestring_gate_eq : same g_multilinestring (gate_re TMLine) = true /\ g_multilinestring_ic = true. Proof. vm_compute. split; reflexivity. Qed.
 Lemma gen_word_eq : same g_word re_word = true. Proof. vm_compute. reflexivity. Qed.
